@@ -3841,13 +3841,14 @@ iwrc iwkv_cursor_get(
   if (!cur || !cur->lx.db) {
     return IW_ERROR_INVALID_ARGS;
   }
-  if (!cur->cn || (cur->cn->flags & SBLK_DB) || (cur->cnpos >= cur->cn->pnum)) {
-    return IWKV_ERROR_NOTFOUND;
-  }
   struct iwlctx *lx = &cur->lx;
   API_DB_RLOCK(lx->db, rci);
   uint8_t *mm = 0;
   IWFS_FSM *fsm = &lx->db->iwkv->fsm;
+  if (!cur->cn || (cur->cn->flags & SBLK_DB) || (cur->cnpos >= cur->cn->pnum)) { // tested under the lock: writers move cursors
+    rc = IWKV_ERROR_NOTFOUND;
+    goto finish;
+  }
   rc = fsm->acquire_mmap(fsm, 0, &mm, 0);
   RCGO(rc, finish);
   if (!cur->cn->kvblk) {
@@ -3881,9 +3882,6 @@ iwrc iwkv_cursor_copy_val(struct iwkv_cursor *cur, void *vbuf, size_t vbufsz, si
   if (!cur || !vbuf || !cur->lx.db) {
     return IW_ERROR_INVALID_ARGS;
   }
-  if (!cur->cn || (cur->cn->flags & SBLK_DB) || (cur->cnpos >= cur->cn->pnum)) {
-    return IWKV_ERROR_NOTFOUND;
-  }
 
   *vsz = 0;
   struct iwlctx *lx = &cur->lx;
@@ -3891,6 +3889,10 @@ iwrc iwkv_cursor_copy_val(struct iwkv_cursor *cur, void *vbuf, size_t vbufsz, si
   uint8_t *mm = 0, *oval;
   uint32_t ovalsz;
   IWFS_FSM *fsm = &lx->db->iwkv->fsm;
+  if (!cur->cn || (cur->cn->flags & SBLK_DB) || (cur->cnpos >= cur->cn->pnum)) { // tested under the lock: writers move cursors
+    rc = IWKV_ERROR_NOTFOUND;
+    goto finish;
+  }
   rc = fsm->acquire_mmap(fsm, 0, &mm, 0);
   RCGO(rc, finish);
   if (!cur->cn->kvblk) {
@@ -3916,9 +3918,6 @@ iwrc iwkv_cursor_is_matched_key(struct iwkv_cursor *cur, const struct iwkv_val *
   if (!cur || !ores || !key || !cur->lx.db) {
     return IW_ERROR_INVALID_ARGS;
   }
-  if (!cur->cn || (cur->cn->flags & SBLK_DB) || (cur->cnpos >= cur->cn->pnum)) {
-    return IWKV_ERROR_NOTFOUND;
-  }
 
   *ores = 0;
   if (ocompound) {
@@ -3931,6 +3930,10 @@ iwrc iwkv_cursor_is_matched_key(struct iwkv_cursor *cur, const struct iwkv_val *
   uint32_t okeysz;
   iwdb_flags_t dbflg = lx->db->dbflg;
   IWFS_FSM *fsm = &lx->db->iwkv->fsm;
+  if (!cur->cn || (cur->cn->flags & SBLK_DB) || (cur->cnpos >= cur->cn->pnum)) { // tested under the lock: writers move cursors
+    rc = IWKV_ERROR_NOTFOUND;
+    goto finish;
+  }
   rc = fsm->acquire_mmap(fsm, 0, &mm, 0);
   RCGO(rc, finish);
   if (!cur->cn->kvblk) {
@@ -3978,9 +3981,6 @@ iwrc iwkv_cursor_copy_key(struct iwkv_cursor *cur, void *kbuf, size_t kbufsz, si
   if (!cur || !cur->lx.db) {
     return IW_ERROR_INVALID_ARGS;
   }
-  if (!cur->cn || (cur->cn->flags & SBLK_DB) || (cur->cnpos >= cur->cn->pnum)) {
-    return IWKV_ERROR_NOTFOUND;
-  }
 
   *ksz = 0;
   struct iwlctx *lx = &cur->lx;
@@ -3989,6 +3989,10 @@ iwrc iwkv_cursor_copy_key(struct iwkv_cursor *cur, void *kbuf, size_t kbufsz, si
   uint32_t okeysz;
   iwdb_flags_t dbflg = lx->db->dbflg;
   IWFS_FSM *fsm = &lx->db->iwkv->fsm;
+  if (!cur->cn || (cur->cn->flags & SBLK_DB) || (cur->cnpos >= cur->cn->pnum)) { // tested under the lock: writers move cursors
+    rc = IWKV_ERROR_NOTFOUND;
+    goto finish;
+  }
   rc = fsm->acquire_mmap(fsm, 0, &mm, 0);
   RCGO(rc, finish);
   if (!cur->cn->kvblk) {
@@ -4039,19 +4043,22 @@ IW_EXPORT iwrc iwkv_cursor_seth(
   if (!cur || !cur->lx.db) {
     return IW_ERROR_INVALID_ARGS;
   }
-  if (!cur->cn || (cur->cn->flags & SBLK_DB) || (cur->cnpos >= cur->cn->pnum)) {
-    return IWKV_ERROR_NOTFOUND;
-  }
 
   struct iwlctx *lx = &cur->lx;
   struct iwdb *db = lx->db;
   struct iwkv *iwkv = db->iwkv;
-  struct sblk *sblk = cur->cn;
-  if (iwkv->oflags & IWKV_RDONLY) {
-    return IW_ERROR_READONLY;
-  }
+  struct sblk *sblk;
 
   API_DB_WLOCK(db, rci);
+  if (!cur->cn || (cur->cn->flags & SBLK_DB) || (cur->cnpos >= cur->cn->pnum)) { // tested under the lock: writers move cursors
+    rc = IWKV_ERROR_NOTFOUND;
+    goto finish;
+  }
+  if (iwkv->oflags & IWKV_RDONLY) {
+    rc = IW_ERROR_READONLY;
+    goto finish;
+  }
+  sblk = cur->cn;
   if (!sblk->kvblk) {
     uint8_t *mm;
     IWFS_FSM *fsm = &db->iwkv->fsm;
@@ -4130,21 +4137,24 @@ iwrc iwkv_cursor_del(struct iwkv_cursor *cur, iwkv_opflags opflags) {
   if (!cur || !cur->lx.db) {
     return IW_ERROR_INVALID_ARGS;
   }
-  if (!cur->cn || (cur->cn->flags & SBLK_DB) || (cur->cnpos >= cur->cn->pnum)) {
-    return IWKV_ERROR_NOTFOUND;
-  }
 
   uint8_t *mm;
-  struct sblk *sblk = cur->cn;
+  struct sblk *sblk;
   struct iwlctx *lx = &cur->lx;
   struct iwdb *db = lx->db;
   struct iwkv *iwkv = db->iwkv;
   IWFS_FSM *fsm = &iwkv->fsm;
-  if (iwkv->oflags & IWKV_RDONLY) {
-    return IW_ERROR_READONLY;
-  }
 
   API_DB_WLOCK(db, rci);
+  if (!cur->cn || (cur->cn->flags & SBLK_DB) || (cur->cnpos >= cur->cn->pnum)) { // tested under the lock: writers move cursors
+    rc = IWKV_ERROR_NOTFOUND;
+    goto finish;
+  }
+  if (iwkv->oflags & IWKV_RDONLY) {
+    rc = IW_ERROR_READONLY;
+    goto finish;
+  }
+  sblk = cur->cn;
   if (sblk->pnum == 1) { // sblk will be removed
     struct iwkv_val key = { 0 };
     // Key a key
